@@ -671,7 +671,7 @@ def fetch_symbols(ocp, spec):
 DEFAULT_WEIGHTS = {
     "set_value": 3, "set_initial": 3, "subject_to": 2, "clear_constraints": 0.7, "add_objective": 1, "method": 2, "solver": 1,
     "set_T": 1, "set_t0": 0.6, "query": 2, "solve": 3, "read_ncs": 0.3, "check": 2, "reject": 0.5, "save": 0, "load": 0,
-    "late_sym": 0.4, "callback": 0.3, "mpc": 1.0, "redeclare": 1.0, "catsave": 0,
+    "late_sym": 0.4, "callback": 0.3, "mpc": 1.0, "redeclare": 1.0, "catsave": 0, "T_roundtrip": 0.6,
 }
 
 
@@ -822,6 +822,22 @@ class Scheduler:
             if T[0] != "free" and any(E_mentions_T(o) for o in sp.obj):
                 T[0] = "free"
             return self.maybe_remethod([{"op": "set_T", "a": a, "T": T}], a, sp, st)
+        if k == "T_roundtrip":
+            # the horizon is fixed for a moment and then made free again (no transcription in between): the guess the
+            # user gave for it belongs to the specification all along
+            which = G.pick(r, ["T", "t0"])
+            cur = sp.T if which == "T" else sp.t0
+            if cur[0] != "free" or not st["ever"]:
+                return None
+            out = []
+            if not any(x == which for x, g in sp.initial):
+                out.append({"op": "set_initial", "a": a, "x": which, "g": ["num", G.positive_value(r) if which == "T" else G.rnum(r, -1, 1)]})
+            num = ["num", G.positive_value(r) if which == "T" else G.rnum(r, -1, 1)]
+            if which == "T":
+                out += [{"op": "set_T", "a": a, "T": num}, {"op": "set_T", "a": a, "T": jcopy(cur)}]
+            else:
+                out += [{"op": "set_t0", "a": a, "t0": num}, {"op": "set_t0", "a": a, "t0": jcopy(cur)}]
+            return out
         if k == "set_t0":
             t0 = [sp.t0[0], G.rnum(r, -1, 1)]
             return self.maybe_remethod([{"op": "set_t0", "a": a, "t0": t0}], a, sp, st)
